@@ -118,7 +118,7 @@ def production(ctx, quick, rnd):
                             out = "True" if ok is True else "returned %r" % (ok,)
                         except BaseException as ex:  # noqa
                             out = type(ex).__name__
-                        events.append({"cls": cls, "n": n2l(n), "r": n2l(rr), "s": n2l(ss), "out": out, "der": []})
+                        events.append({"cls": cls, "n": n2l(n), "r": n2l(rr), "s": n2l(ss), "out": out, "der": [], "e": [], "digest": []})
                         meta.append((c.name, cls, d, k, digest.hex(), rr, ss, dec_name))
                         ctx.nontrivial.add((c.name, cls, dec_name, rr, ss))
                 # damaged DER encodings of the genuine signature (long-form lengths on the 512/521-bit curves)
@@ -148,6 +148,70 @@ def production(ctx, quick, rnd):
                     out = type(ex).__name__
                 events.append({"cls": "long-digest-no-truncate", "n": n2l(n), "r": n2l(r), "s": n2l(s), "out": out, "der": []})
                 meta.append((c.name, "long-digest-no-truncate", d, k, "", r, s, "string"))
+    # signatures built outside the library for an explicit e: which e belongs to a digest is decided by TLC on bytes
+    # (leftmost bitlen(n) bits), so a verifier that converts the digest differently - and a signer that errs the same way -
+    # is caught; digests shorter than, equal to, one byte longer than the order and much wider (hashes of 28..64 bytes)
+    for ci, c in enumerate(cl):
+        n, l = c.order, c.baselen
+        nb = n.bit_length()
+        d = (0x1234567 * (ci + 3) + rnd.randrange(1, 1 << 20)) % (n - 1) + 1
+        vk0 = SigningKey.from_secret_exponent(d, c, hashfunc=hashlib.sha256).get_verifying_key()
+        widths = sorted({max(1, l - 1), l, l + 1, 28, 32, 48, 64, 2 * l + 3}) if not quick else \
+            sorted({l, l + 1, rnd.choice([28, 32, 48, 64]), 64 if l < 60 else 2 * l + 3})
+        for w in widths:
+            for top in ((0xff, 0x00, 0x5a) if not quick else (0xff, rnd.choice([0x00, 0x01, 0x5a]))):
+                dg = bytes([top]) + hashlib.sha512(b"w%d-%d-%d" % (ci, w, top)).digest()[:w - 1] if w > 1 else bytes([top or 7])
+                dg = dg.ljust(w, b"\x3c")[:w]
+                full = int.from_bytes(dg, "big")
+                e_right = full >> max(0, 8 * w - nb)
+                variants = [("leftmost bitlen(n) bits", e_right), ("one bit fewer", e_right >> 1),
+                            ("leftmost baselen bytes", int.from_bytes(dg[:l], "big")),
+                            ("leftmost field-length bytes", int.from_bytes(dg[:c.verifying_key_length // 2], "big")),
+                            ("shifted by whole bytes only", full >> (8 * max(0, w - l))),
+                            ("value-dependent shift", full >> max(0, full.bit_length() - nb))]
+                seen_e = set()
+                k = rnd.randrange(1, n)
+                try:
+                    R = c.generator * k
+                    r = R.x() % n
+                except BaseException:  # noqa
+                    continue
+                if r == 0:
+                    continue
+                for vname, ev_ in variants:
+                    if ev_ in seen_e or ev_ > 2 * n:
+                        continue
+                    seen_e.add(ev_)
+                    ss = pow(k, -1, n) * (ev_ + r * d) % n
+                    if ss == 0:
+                        continue
+                    sig = util.sigencode_string(r, ss, n) if (len(events) % 2) else util.sigencode_der(r, ss, n)
+                    dec = util.sigdecode_string if (len(events) % 2) else util.sigdecode_der
+                    try:
+                        ok = forms[len(events) % len(forms)](vk0).verify_digest(sig, dg, sigdecode=dec, allow_truncate=True)
+                        out = "True" if ok is True else "returned %r" % (ok,)
+                    except BaseException as ex:  # noqa
+                        out = type(ex).__name__
+                    events.append({"cls": "built-for-e", "n": n2l(n), "r": n2l(r), "s": n2l(ss), "out": out, "der": [],
+                                   "e": n2l(ev_), "digest": b2l(dg)})
+                    meta.append((c.name, "built-for-e (%s)" % vname, d, k, dg.hex(), r, ss, "string" if dec is util.sigdecode_string else "der"))
+                    ctx.nontrivial.add((c.name, "built-for-e", w, top, ev_))
+    # DER signatures whose INTEGERs are far beyond any order (contents of 200 bytes .. 9 kB): out of range, BadSignatureError
+    for c in (cl[0], cl[4], cl[-1]) if quick else cl:
+        n = c.order
+        vk0 = SigningKey.from_secret_exponent(7, c, hashfunc=hashlib.sha256).get_verifying_key()
+        for bits in (1600, 14000, 20000, 70000) if quick else (1600, 8000, 14000, 14300, 20000, 70000):
+            for rr, ss in ((1 << bits, 5), (5, (1 << bits) + 1), (1 << bits, (1 << bits) - 1)):
+                sig = util.sigencode_der(rr, ss, n)
+                try:
+                    ok = vk0.verify_digest(sig, b"\x11" * c.baselen, sigdecode=util.sigdecode_der, allow_truncate=True)
+                    out = "True" if ok is True else "returned %r" % (ok,)
+                except BaseException as ex:  # noqa
+                    out = type(ex).__name__
+                # the numbers themselves are not shipped to TLC (kilobytes each): r or s >= 2^1600 > n is the harness's
+                # construction; the range clause is recomputed on the stand-in r = n (equally out of range)
+                events.append({"cls": "r-is-n", "n": n2l(n), "r": n2l(n), "s": n2l(min(ss, n)), "out": out, "der": []})
+                meta.append((c.name, "huge DER INTEGER (2^%d)" % bits, 7, 0, "11" * c.baselen, rr if rr < n else -bits, ss if ss < n else -bits, "der"))
     # public keys with a special shape: x(Q) = 0, i.e. Q = (0, +-sqrt(b)).  Their private scalar is unknown, so genuine
     # signatures are constructed algebraically: pick u1, u2, R = u1 G + u2 Q (harness arithmetic, inputs only),
     # r = x(R) mod n, s = r / u2, e = u1 s; u1 = 0 gives the digest e = 0.  Offered through every key object form.
